@@ -45,7 +45,13 @@ type solver struct {
 }
 
 func newSolver(timeoutMs int) *solver {
-	s := &solver{timeoutMs: timeoutMs, bin: "z3", args: []string{"-in"}}
+	// z3 5.1.0 (z3-new) is the primary solver: its get-value after
+	// check-sat-assuming is ~40x faster than 4.8.12's, which matters because
+	// every explored alternative carries a model. 4.8.12 is the fallback.
+	s := &solver{timeoutMs: timeoutMs, bin: "z3-new", args: []string{"-in"}}
+	if _, err := exec.LookPath("z3-new"); err != nil {
+		s.bin = "z3"
+	}
 	if b := os.Getenv("SYMGO_SOLVER"); b != "" {
 		f := strings.Fields(b)
 		s.bin, s.args = f[0], f[1:]
@@ -82,7 +88,15 @@ func (s *solver) close() {
 	}
 }
 
+var dumpFile *os.File
+
 func (s *solver) send(line string) {
+	if dumpFile == nil && os.Getenv("SYMGO_SMTDUMP") != "" {
+		dumpFile, _ = os.Create(os.Getenv("SYMGO_SMTDUMP"))
+	}
+	if dumpFile != nil {
+		dumpFile.WriteString(line + "\n")
+	}
 	s.transcript.WriteString(line)
 	s.transcript.WriteByte('\n')
 	io.WriteString(s.in, line)
@@ -99,9 +113,15 @@ func (s *solver) reset() {
 		s.send(fmt.Sprintf("(set-option :timeout %d)", s.timeoutMs))
 	} else {
 		io.WriteString(s.in, "(pop 1)\n")
+		if dumpFile != nil {
+			dumpFile.WriteString("(pop 1)\n")
+		}
 		s.transcript.WriteString("(set-option :print-success false)\n")
 	}
 	io.WriteString(s.in, "(push 1)\n")
+	if dumpFile != nil {
+		dumpFile.WriteString("(push 1)\n")
+	}
 	s.pushed = true
 }
 
@@ -129,6 +149,9 @@ func (s *solver) define(t *Term) {
 	s.defined[t.id] = true
 	s.send(fmt.Sprintf("(define-fun t%d () %s %s)", t.id, smtSort(t.w), t.body()))
 }
+
+// sendRaw sends a command that is not part of the path's definitions.
+func (s *solver) sendRaw(line string) { s.send(line) }
 
 func (s *solver) assert(t *Term) {
 	s.define(t)
